@@ -83,21 +83,10 @@ func (cx *Ctx) runOp(rule string, spec opSpec) *opRun {
 		// the thorough tier as well
 		ps.loopBound = 1
 	}
-	var stageHelpers []*ssa.Function
-	if spec.kind == "bulkGet" {
-		// the stages of the bulk read (lookup, start, collect) may have been split off into helpers of their own: they are
-		// inlined together with their loops, so that the events of a stage are seen wherever it lives (the callees that
-		// are summarised as events are set below and stay summarised)
-		allInstrs(fn, func(in ssa.Instruction) {
-			if g := calleeOf(in); g != nil && g.Pkg != nil && g.Pkg == fn.Pkg && g.Parent() == nil && !g.Object().Exported() && len(origin(g).Blocks) > 0 {
-				loadBaseline()
-				pkg, recv, _ := funcKey(g)
-				if _, known := baselineFuncs[pkg+"|"+recv+"|"+cname(g)]; !known {
-					stageHelpers = append(stageHelpers, origin(g))
-				}
-			}
-		})
-	}
+	// stages of the operation that were split off into helpers of their own (functions the pinned tree does not have) are
+	// inlined together with their loops, so that the events of a stage are seen wherever it lives; callees that are
+	// summarised as events are set below and stay summarised
+	stageHelpers := newHelpersOf(fn)
 	if spec.kind == "setExp" || spec.kind == "setRefr" {
 		// the decision to leave a deadline as it is must be a function of that deadline: record such comparisons
 		ps.alsoRelevant = []string{"ExpiresAt(", "RefreshableAt(", "param:expiresAfter", "param:refreshableAfter"}
@@ -425,5 +414,33 @@ func startCallRoles(cx *Ctx) []startRole {
 			out = append(out, startRole{f, kind})
 		}
 	}
+	return out
+}
+
+
+// newHelpersOf: the unexported functions of fn's package that fn (or one of its closures) calls directly and that the
+// pinned tree does not have.
+func newHelpersOf(fn *ssa.Function) []*ssa.Function {
+	var out []*ssa.Function
+	seen := map[*ssa.Function]bool{}
+	loadBaseline()
+	var visit func(f *ssa.Function)
+	visit = func(f *ssa.Function) {
+		allInstrs(f, func(in ssa.Instruction) {
+			g := calleeOf(in)
+			if g == nil || g.Pkg == nil || g.Pkg != fn.Pkg || g.Parent() != nil || g.Object() == nil || g.Object().Exported() || len(origin(g).Blocks) == 0 || seen[origin(g)] {
+				return
+			}
+			seen[origin(g)] = true
+			pkg, recv, _ := funcKey(g)
+			if _, known := baselineFuncs[pkg+"|"+recv+"|"+cname(g)]; !known {
+				out = append(out, origin(g))
+			}
+		})
+		for _, a := range f.AnonFuncs {
+			visit(a)
+		}
+	}
+	visit(fn)
 	return out
 }
